@@ -227,7 +227,11 @@ func (s *srvSession) onServerWrite(p []byte) {
 		f := parseFrame(s.rbuf[4], append([]byte(nil), s.rbuf[5:4+n]...))
 		s.rbuf = s.rbuf[4+n:]
 		s.resps = append(s.resps, f)
-		s.tr.emit("Resp", kv{"id": int(f.ID & 0x7fffffff), "typ": f.T(), "code": int(f.Code), "bad": f.Bad,
+		sig := -1
+		if f.Typ == tData && len(f.Data) > 0 {
+			sig = int(f.Data[0])
+		}
+		s.tr.emit("Resp", kv{"id": int(f.ID & 0x7fffffff), "typ": f.T(), "code": int(f.Code), "bad": f.Bad, "sig": sig,
 			"n": len(f.Data), "names": len(f.Names), "handle": f.Handle})
 	}
 	s.cond.Broadcast()
